@@ -278,7 +278,7 @@ class NTuple(Collection):
         )
 
     def __getitem__(self, index: int) -> NadaType:
-        if index >= len(self.values):
+        if index < 0 or index >= len(self.values):
             raise IndexError(f"Invalid index {index} for NTuple.")
 
         accessor = NTupleAccessor(
